@@ -79,7 +79,7 @@ def fmt (x : Float) : String :=
   else if x.isInf then (if x < 0 then "-inf" else "inf")
   else toString x.toBits.toNat
 
-def fmtB (b : Bool) : String := if b then "1" else "0"
+def fmtB (b : Bool) : String := if b then "T" else "F"
 
 def fmtE (x : Ext Float) : String :=
   match x with
